@@ -70,6 +70,9 @@ def pool_header(rng, ptype=None, src=None):
 
 def around_max(rng, sz, arrays):
     """a request at or just beyond what allocator_traits reports as maximum (decided at run time)"""
+    if rng.random() < 0.2:
+        # the same with the library's default handlers selected through set_handler(nullptr)
+        return "hnull\n" + around_max(rng, sz, arrays) + "\nhset"
     r = rng.random()
     if r < 0.4:
         return "anm %d %d" % (rng.choice([-1, 0, 1, 1, 2, 8, 1000]), rng.choice([1, 1, 8]))
@@ -113,7 +116,7 @@ def pool_cmds(rng, h, n, arrays=None, tries=True, fail=False):
         if rng.random() < 0.04:
             cmds.append("drain %d" % ns)
         if rng.random() < 0.05:
-            cmds.append(around_max(rng, ns, arrays))
+            cmds += around_max(rng, ns, arrays).split("\n")
     cmds += ["nofail", "drain %d" % ns]
     return cmds
 
@@ -179,7 +182,7 @@ def coll_cmds(rng, h, n, arrays=None, tries=True, fail=False):
         if rng.random() < 0.03:
             cmds.append("drain %d" % rng.choice(fav))
         if rng.random() < 0.05:
-            cmds.append(around_max(rng, rng.choice(fav), arrays))
+            cmds += around_max(rng, rng.choice(fav), arrays).split("\n")
         if rng.random() < 0.04 and not h["member"]:
             # more alignment than the size guarantees (still at most max_alignment): must be refused
             big = [a for a in (2, 4, 8, 16) if a > alignment_for(sz)]
